@@ -58,6 +58,9 @@ func vsNewStream() *vsStream {
 	return &vsStream{feed: make(chan vsItem), ready: make(chan struct{}, 1), closedCh: make(chan struct{})}
 }
 
+// how long recvLoop is given to ask for another message before it is taken to be blocked on a full recvCh
+const vsHeldGrace = 10 * time.Millisecond
+
 var errVsTimeout = fmt.Errorf("vs: read deadline exceeded")
 var errVsStream = fmt.Errorf("vs: scripted stream error")
 
@@ -210,6 +213,8 @@ type vsWorld struct {
 	pending   int
 	fedN      int
 	stuck     bool // a real call did not return: the behaviour cannot be continued
+	fullSeen  bool // the receive queue has been full at some point of this session (slow reader)
+	held      bool // recvLoop took the last item and has not asked for another: it is blocked handing it to a full recvCh
 	msgBytes  int  // bytes released as plain messages (the rest of expect came together with the error)
 }
 
@@ -298,7 +303,7 @@ func (w *vsWorld) project() map[string]any {
 		closed = true
 	default:
 	}
-	return map[string]any{"chan": len(w.hb.recvCh), "buf": buf, "bufErr": w.sc.readErr != nil && buf > 0,
+	return map[string]any{"chan": len(w.hb.recvCh), "held": w.held, "buf": buf, "bufErr": w.sc.readErr != nil && buf > 0,
 		"delivered": w.delivered, "closed": closed}
 }
 
@@ -372,6 +377,8 @@ func (w *vsWorld) apply(step map[string]any, class int, wait time.Duration) (got
 			w.srcErr = true
 		}
 		w.fedN++
+		full := len(w.hb.recvCh) == cap(w.hb.recvCh)
+		w.fullSeen = w.fullSeen || full
 		w.timer.Reset(wait)
 		select {
 		case w.st.feed <- it:
@@ -386,7 +393,14 @@ func (w *vsWorld) apply(step map[string]any, class int, wait time.Duration) (got
 			w.stuck = true
 			return got, "StreamFidelity:receiver-stalled", ""
 		}
-		if !w.waitReady(wait) {
+		if full && k != "hb" {
+			// Slow reader: the receive queue (read from the real object) was full when this message was handed
+			// over, so recvLoop has nowhere to put it and must hold it - it asks for the next message only after
+			// a reader has made room.  Whether it really does is observed (no new stream.Read within the grace
+			// period), not assumed: a receiver that drops or overwrites instead shows up as held = false here
+			// and in the bytes read later.
+			w.held = !w.waitReady(vsHeldGrace)
+		} else if !w.waitReady(wait) {
 			got["feedStuck"] = true
 			w.stuck = true
 			return got, "StreamFidelity:receiver-stalled", ""
@@ -432,6 +446,8 @@ func (w *vsWorld) apply(step map[string]any, class int, wait time.Duration) (got
 	case "Read":
 		b := int(step["b"].(float64))
 		got["b"] = b
+		// a read that finds SCTPConn's own buffer empty takes a message out of recvCh
+		dequeues := w.sc.readOffset == w.sc.readLength
 		w.cmd <- b
 		w.timer.Reset(wait)
 		select {
@@ -440,6 +456,18 @@ func (w *vsWorld) apply(step map[string]any, class int, wait time.Duration) (got
 			v, off := w.judge(r)
 			viol, errText = v, vsErrText(r.err)
 			got["rd"] = vsRdObs(r, off)
+			if w.held && dequeues {
+				// room was made: recvLoop's blocked send completes and it asks for the next message (or, if what
+				// it held was the stream error, closes the connection)
+				if !w.waitReady(wait) {
+					got["refillStuck"] = true
+					w.stuck = true
+					if viol == "" {
+						viol = "StreamFidelity:receiver-stalled"
+					}
+				}
+				w.held = false
+			}
 		case <-w.timer.C:
 			w.pending = b
 			w.stuck = true
@@ -491,15 +519,20 @@ func vsOps(beh []map[string]any) []string {
 func (w *vsWorld) situation() string {
 	queued := w.delivered < w.msgBytes
 	withErr := len(w.expect) > w.msgBytes && w.delivered < len(w.expect)
+	sit := "none"
 	switch {
 	case queued && withErr:
-		return "queued+with-error"
+		sit = "queued+with-error"
 	case withErr:
-		return "with-error"
+		sit = "with-error"
 	case queued:
-		return "queued"
+		sit = "queued"
 	}
-	return "none"
+	if w.fullSeen {
+		// the reader fell behind by the whole receive queue before this happened
+		sit += ":slow-reader"
+	}
+	return sit
 }
 
 func TestVerifStreamReplay(t *testing.T) {
@@ -512,7 +545,7 @@ func TestVerifStreamReplay(t *testing.T) {
 	if m < 2 {
 		hbBytes = hbBytes[:1]
 	}
-	var nb, ns, nm, nprop, nshape atomic.Int64
+	var nb, ns, nm, nprop, nshape, qcap atomic.Int64
 	type job struct {
 		idx  int64
 		line []byte
@@ -546,6 +579,7 @@ func TestVerifStreamReplay(t *testing.T) {
 						t.Errorf("setup: %v", err)
 						break
 					}
+					qcap.Store(int64(cap(w.hb.recvCh)))
 					rec = nil
 					var first map[string]any
 					for i, step := range beh {
@@ -597,7 +631,7 @@ func TestVerifStreamReplay(t *testing.T) {
 	close(jobs)
 	wg.Wait()
 	out.Emit(map[string]any{"kind": "summary", "behaviours": nb.Load(), "steps": ns.Load(), "mismatches": nm.Load(),
-		"property": nprop.Load(), "shape": nshape.Load(), "m": m, "truncated": nm.Load() >= maxMis})
+		"property": nprop.Load(), "shape": nshape.Load(), "m": m, "truncated": nm.Load() >= maxMis, "recvch_cap": qcap.Load()})
 }
 
 // ---------------------------------------------------------------- stage C: production-size random histories
@@ -612,6 +646,11 @@ func TestVerifStreamRandom(t *testing.T) {
 	msgLens := []int{1, 2, 31, 32, 33, 100, 1000, 4096, 65535, 65536}
 	rdSmall := []int{1, 2, 7, 32, 33, 1000}
 	rdLarge := []int{4096, 20000, 65535, 65536, 65537, 200000}
+	// the first VERIF_SLOW traces have a SLOW READER: nothing is read until `stall` messages wait unread (levels
+	// around the real capacity of recvCh: the queue full, and recvLoop holding one more), then reads and
+	// further arrivals interleave at random and everything is read out
+	nslow := vEnvInt("VERIF_SLOW", 0)
+	nitems0 := nitems
 	nviol := 0
 	for tr := 0; tr < ntr; tr++ {
 		// production heartbeat payload (validate() default), interval long enough to keep the watchdog out
@@ -621,6 +660,12 @@ func TestVerifStreamRandom(t *testing.T) {
 		}
 		w.hbBytes = defaultConfig.Heartbeat
 		out.Emit(map[string]any{"a": "Reset"})
+		stall, nitems := 0, nitems0
+		if tr < nslow {
+			c := cap(w.hb.recvCh)
+			stall = []int{c + 1, c, c - 1, c / 2, c + 1, c}[tr%6]
+			nitems = 2*stall + 16 + rng.Intn(24)
+		}
 		errAt := -1 // index (1-based) of the item that is the stream error; -1: the stream stays healthy
 		if rng.Intn(4) != 0 {
 			errAt = 1 + rng.Intn(nitems)
@@ -632,7 +677,18 @@ func TestVerifStreamRandom(t *testing.T) {
 			p := w.project()
 			buf, qlen := p["buf"].(int), p["chan"].(int)
 			readable := buf > 0 || qlen > 0 || p["closed"].(bool)
-			canFeed := !w.srcErr && w.fedN < nitems
+			// recvLoop takes the next item only when it is not holding one for a full queue
+			canFeed := !w.srcErr && w.fedN < nitems && !w.held
+			outstanding := qlen
+			if w.held {
+				outstanding++
+			}
+			if stall > 0 && (outstanding >= stall || !canFeed) {
+				stall = 0
+			}
+			if stall > 0 && w.fedN+1 == errAt {
+				errAt++ // the stream does not fail while the backlog builds up
+			}
 			var s map[string]any
 			feed := func() {
 				switch x := rng.Intn(10); {
@@ -653,6 +709,8 @@ func TestVerifStreamRandom(t *testing.T) {
 				}
 			}
 			switch {
+			case stall > 0:
+				feed()
 			case w.pending != 0:
 				if !canFeed {
 					break steps
@@ -694,4 +752,185 @@ func TestVerifStreamRandom(t *testing.T) {
 		w.close()
 	}
 	t.Logf("traces=%d property violations=%d", ntr, nviol)
+}
+
+// ---------------------------------------------------------------- free-running slow reader (no stepping)
+
+// TestVerifStreamFreeRun lets the peer push as fast as the receive path takes it while the reader repeatedly falls
+// behind until the peer can push no more (recvCh full, recvLoop holding one message, the next one waiting in the
+// stream) and then catches up partly or fully - the literal "many messages before the application reads".  Nothing is
+// scheduled by the driver, so what happens inside one call (a message taken out of recvCh but not yet copied) is
+// exercised too; under -race (thorough tier) an unsynchronised reuse of a receive buffer is reported by the race
+// detector even when the bytes happen to come out right.  Oracle: the bytes read are the concatenation of the messages.
+func TestVerifStreamFreeRun(t *testing.T) {
+	out := vOpenOut(t)
+	defer out.Close()
+	rounds := vEnvInt("VERIF_ROUNDS", 16)
+	nviol := 0
+	for round := 0; round < rounds; round++ {
+		rng := rand.New(rand.NewSource(vSeed()*104729 + int64(round)))
+		m := []int{3, 64, 1500, 65536}[round%4]
+		hbBytes := []byte{0xFE, 0xFF}
+		if m > 64 {
+			hbBytes = defaultConfig.Heartbeat
+		}
+		st := vsNewStream()
+		hb, err := heartbeatServer(st, &heartbeatConfig{Interval: time.Hour, Heartbeat: hbBytes}, m)
+		if err != nil {
+			t.Fatalf("setup: %v", err)
+		}
+		sc := newSCTPConn(hb, &vsConn{}, uint64(m))
+		qcap := cap(hb.recvCh)
+		nitems := 3*qcap + rng.Intn(2*qcap)
+		withErr := round%3 == 2
+		var items []vsItem
+		var expect []byte
+		nmsg, nhb := 0, 0
+		for i := 0; i < nitems; i++ {
+			if rng.Intn(5) == 0 {
+				items = append(items, vsItem{data: hbBytes})
+				nhb++
+				continue
+			}
+			n := 1 + rng.Intn(m)
+			if m > 1500 && rng.Intn(4) != 0 {
+				n = 1 + rng.Intn(200)
+			}
+			b := make([]byte, n)
+			for j := range b {
+				b[j] = byte(1 + (len(expect)+j)%239)
+			}
+			items = append(items, vsItem{data: b})
+			expect = append(expect, b...)
+			nmsg++
+		}
+		if withErr {
+			items = append(items, vsItem{err: errVsStream})
+		}
+		var fedCount atomic.Int64
+		writerDone := make(chan struct{})
+		go func() {
+			defer close(writerDone)
+			for _, it := range items {
+				select {
+				case st.feed <- it:
+					fedCount.Add(1)
+				case <-st.closedCh:
+					return
+				}
+			}
+		}()
+		// the reader: stall until the peer is stuck (or done), then read a random number of times, and again
+		type result struct {
+			got     []byte
+			err     error
+			reads   int
+			stalls  int
+			maxBack int
+			broke   string
+		}
+		resCh := make(chan result, 1)
+		go func() {
+			var r result
+			defer func() {
+				if p := recover(); p != nil {
+					r.broke = fmt.Sprint(p)
+				}
+				resCh <- r
+			}()
+			sizes := []int{1, 2, 3, 7, m - 1, m, m + 1, 4 * m}
+			for len(r.got) < len(expect) || withErr {
+				// fall behind: wait until the writer makes no progress any more
+				last := int64(-1)
+				for {
+					select {
+					case <-writerDone:
+					default:
+						if c := fedCount.Load(); c != last {
+							last = c
+							time.Sleep(2 * time.Millisecond)
+							continue
+						}
+					}
+					break
+				}
+				r.stalls++
+				if b := len(hb.recvCh); b > r.maxBack {
+					r.maxBack = b
+				}
+				burst := 1 + rng.Intn(3*qcap)
+				if rng.Intn(3) == 0 {
+					burst = 1 + rng.Intn(4) // barely catches up: the backlog stays at the top
+				}
+				for i := 0; i < burst && (len(r.got) < len(expect) || withErr); i++ {
+					sz := sizes[rng.Intn(len(sizes))]
+					if sz < 1 {
+						sz = 1
+					}
+					buf := make([]byte, sz)
+					n, err := sc.Read(buf)
+					r.reads++
+					if n < 0 || n > sz {
+						r.broke = fmt.Sprintf("Read returned n=%d for a %d-byte buffer", n, sz)
+						return
+					}
+					r.got = append(r.got, buf[:n]...)
+					if err != nil {
+						r.err = err
+						return
+					}
+				}
+			}
+		}()
+		var r result
+		timedOut := false
+		select {
+		case r = <-resCh:
+		case <-time.After(20 * time.Second):
+			timedOut = true
+			sc.Close()
+			r = <-resCh
+		}
+		sc.Close()
+		<-writerDone
+		prop := ""
+		off := 0
+		for off < len(r.got) && off < len(expect) && r.got[off] == expect[off] {
+			off++
+		}
+		switch {
+		case r.broke != "":
+			prop = "StreamFidelity:read-broke"
+		case off < len(r.got):
+			prop = "StreamFidelity:wrong-bytes"
+			end := off + 2*len(hbBytes)
+			if end > len(r.got) {
+				end = len(r.got)
+			}
+			start := off - len(hbBytes)
+			if start < 0 {
+				start = 0
+			}
+			if bytes.Contains(r.got[start:end], hbBytes) && !bytes.Contains(expect[start:min(end, len(expect))], hbBytes) {
+				prop = "HeartbeatsNeverSurface"
+			}
+		case timedOut:
+			prop = "StreamFidelity:fed-bytes-never-delivered"
+		case r.err != nil && !withErr:
+			prop = "NoSpuriousError"
+		case r.err != nil && len(r.got) < len(expect):
+			prop = "ErrorAfterItsData:error-before-data"
+		}
+		rec := map[string]any{"kind": "freerun", "round": round, "m": m, "messages": nmsg, "heartbeats": nhb, "bytes": len(expect),
+			"read": len(r.got), "reads": r.reads, "stalls": r.stalls, "max_backlog": r.maxBack, "cap": qcap, "with_error": withErr,
+			"prop": prop, "first_bad_offset": off, "err": vsErrText(r.err), "broke": r.broke}
+		if prop != "" {
+			nviol++
+			lo, hi := off, min(off+12, len(r.got))
+			rec["got_at"] = fmt.Sprintf("%x", r.got[lo:hi])
+			rec["want_at"] = fmt.Sprintf("%x", expect[min(lo, len(expect)):min(off+12, len(expect))])
+		}
+		out.Emit(rec)
+	}
+	out.Emit(map[string]any{"kind": "summary", "rounds": rounds, "violations": nviol})
 }
